@@ -28,48 +28,51 @@ inductive Class | decimal | binary
 
 def showInt (i : Int) : String := if i < 0 then "-" ++ toString i.natAbs else toString i.natAbs
 
-/-- `fmt.Sprintf(format, exp)` for the single `%d` the formats contain -/
-def sprintfD (format : String) (exp : Int) : String := format.replace "%d" (showInt exp)
-
-def parseThreshold (format : String) (exp : Int) : F64.Bits :=
-  (DecText.toF64? (sprintfD format exp)).getD F64.nan
+/-- A threshold `strconv.ParseFloat(fmt.Sprintf(format, off+exp))` in the numeric form the
+extractor derives from the format string: mantissa · base^(exp + offset), correctly rounded. -/
+def parseThreshold (isTwo : Bool) (mo : Nat × Int) (exp : Int) : F64.Bits :=
+  if isTwo then F64.ofBinary false mo.1 (exp + mo.2) else F64.ofDecimal false mo.1 (exp + mo.2)
 
 /-- `math.Pow(base, exp)` for base 10 or 2 and the small integer exponents used: correctly
 rounded power (validated against the public `Scaler.Factor` by the correspondence run). -/
-def powFactor (base : String) (exp : Int) : F64.Bits :=
-  if base == "2" then F64.ofBinary false 1 exp else F64.ofDecimal false 1 exp
+def powFactor (isTwo : Bool) (exp : Int) : F64.Bits :=
+  if isTwo then F64.ofBinary false 1 exp else F64.ofDecimal false 1 exp
 
-def mkFactors (prefixes : List String) (start step : Int) (formats : List String) (offsets : List Int)
-    (base : String) : List Factor :=
+def mkFactors (prefixes : List String) (start step : Int) (thresh : List (Nat × Int)) (threshTwo : Bool)
+    (baseTwo : Bool) : List Factor :=
   let rec go : List String → Int → List Factor
     | [], _ => []
     | p :: ps, exp =>
-      let th (i : Nat) : F64.Bits := parseThreshold (formats.getD i "") (offsets.getD i 0 + exp)
-      { factor := powFactor base exp, prefix_ := p, t100 := th 0, t10 := th 1, t1 := th 2 } :: go ps (exp - step)
+      let th (i : Nat) : F64.Bits := parseThreshold threshTwo (thresh.getD i (0, 0)) exp
+      { factor := powFactor baseTwo exp, prefix_ := p, t100 := th 0, t10 := th 1, t1 := th 2 } :: go ps (exp - step)
   go prefixes start
 
 def siFactors : List Factor :=
-  mkFactors ScaleFacts.siPrefixes ScaleFacts.siExpStart ScaleFacts.siExpStep ScaleFacts.siFormats
-    ScaleFacts.siOffsets ScaleFacts.siBase
+  mkFactors ScaleFacts.siPrefixes ScaleFacts.siExpStart ScaleFacts.siExpStep ScaleFacts.siThresh false
+    ScaleFacts.siBaseIsTwo
 
 def iecFactors : List Factor :=
-  mkFactors ScaleFacts.iecPrefixes ScaleFacts.iecExpStart ScaleFacts.iecExpStep ScaleFacts.iecFormats
-    ScaleFacts.iecOffsets ScaleFacts.iecBase
+  mkFactors ScaleFacts.iecPrefixes ScaleFacts.iecExpStart ScaleFacts.iecExpStep ScaleFacts.iecThresh true
+    ScaleFacts.iecBaseIsTwo
 
 /-- thresholds for 3, 4, … digits after the decimal point below the smallest prefix -/
 def sigfigs : List F64.Bits :=
   let n := (ScaleFacts.sigfigsExpStart - ScaleFacts.sigfigsExpEnd).toNat
-  (List.range n).map fun i => parseThreshold ScaleFacts.sigfigsFormat (ScaleFacts.sigfigsExpStart - (i : Int))
+  (List.range n).map fun (i : Nat) => parseThreshold false ScaleFacts.sigfigsThresh (ScaleFacts.sigfigsExpStart - Int.ofNat i)
 
-def cmpOp (op : String) (a b : F64.Bits) : Bool :=
-  if op == ">=" then F64.le b a
-  else if op == ">" then F64.lt b a
-  else if op == "<=" then F64.le a b
-  else if op == "<" then F64.lt a b
-  else false
+def cmpOp (op : Nat) (a b : F64.Bits) : Bool :=
+  match op with
+  | 0 => F64.le b a
+  | 1 => F64.lt b a
+  | 2 => F64.le a b
+  | 3 => F64.lt a b
+  | _ => false
 
-def thresholdOf (f : Factor) (field : String) : F64.Bits :=
-  if field == "t100" then f.t100 else if field == "t10" then f.t10 else f.t1
+def thresholdOf (f : Factor) (field : Nat) : F64.Bits :=
+  match field with
+  | 0 => f.t100
+  | 1 => f.t10
+  | _ => f.t1
 
 /-- the loop computing the smallest non-zero magnitude -/
 def minNonZero (vals : List F64.Bits) : F64.Bits :=
@@ -78,7 +81,7 @@ def minNonZero (vals : List F64.Bits) : F64.Bits :=
     if !(F64.eq v F64.posZero) && (F64.eq min F64.posZero || F64.lt v min) then v else min) F64.posZero
 
 def cascadeStep (min : F64.Bits) (f : Factor) : Option Scaler :=
-  ScaleFacts.cascade.findSome? fun (op, field, prec) =>
+  ScaleFacts.cascadeN.findSome? fun (op, field, prec) =>
     if cmpOp op min (thresholdOf f field) then some { prec := prec, factor := f.factor, prefix_ := f.prefix_ } else none
 
 def fallback (min : F64.Bits) (f : Factor) : Scaler :=
@@ -87,7 +90,7 @@ def fallback (min : F64.Bits) (f : Factor) : Scaler :=
   let rec go : List F64.Bits → Nat → Scaler
     | [], i => { prec := (i + ScaleFacts.sigfigsBase : Nat), factor := f.factor, prefix_ := f.prefix_ }
     | t :: ts, i =>
-      if cmpOp ScaleFacts.fallbackCmp val t || i == n - 1 then
+      if cmpOp ScaleFacts.fallbackCmpN val t || i == n - 1 then
         { prec := (i + ScaleFacts.sigfigsBase : Nat), factor := f.factor, prefix_ := f.prefix_ }
       else go ts (i + 1)
   go sigfigs 0
